@@ -6,7 +6,8 @@ import random
 from common import hx, unhx
 from props import xpgen as X
 
-IFS_SETS = [("unset", None), ("default", " \t\n"), ("space-comma", " ,"), ("comma", ","), ("colon", ":"), ("empty", ""), ("multibyte", "é ")]
+IFS_SETS = [("unset", None), ("default", " \t\n"), ("space-comma", " ,"), ("comma", ","), ("colon", ":"), ("empty", ""), ("multibyte", "é "),
+            ("digit", "5 ")]     # the length of the 5-character value below is an IFS character
 
 
 def seg_kinds(ifs):
@@ -24,6 +25,8 @@ def seg_kinds(ifs):
         ("qempty", [X.Q('"')]),
         ("var", [X.P("v")]),          # unquoted expansion whose value contains IFS characters
         ("qvar", [X.Q('"', X.P("v"))]),
+        ("len", [X.P("v", "#")]),        # ${#v}: generated text, split like any unquoted expansion
+        ("qlen", [X.Q('"', X.P("v", "#"))]),
     ]
     return kinds
 
@@ -32,7 +35,7 @@ class P:
     id = "C14"
     exhaustive = True
     rule = ("exhaustive: all words of <= N segments (quick N=4, thorough N=6) over {ordinary, IFS white space, IFS non-white-space, non-IFS white space, "
-            "quoted ordinary, quoted IFS char, empty quotes, unquoted $v, quoted $v} x IFS in {unset, default, ' ,', ',', ':', '', multi-byte}; "
+            "quoted ordinary, quoted IFS char, empty quotes, unquoted $v, quoted $v, ${#v}, \"${#v}\"} x IFS in {unset, default, ' ,', ',', ':', '', multi-byte, '5 ' (a digit: the length 5 is an IFS character)}; "
             "then random longer words with random values; values with invalid UTF-8 (all strings of <= 3 pieces over 6 byte sequences, random longer ones) under IFS containing U+FFFD or an invalid byte. Non-trivial = the word has at least two segments and one of them is an IFS character or an expansion")
     assumptions = ["pathname expansion disabled (NoGlob) as the property prescribes", "unicode.IsSpace replaced by the White_Space list"]
 
